@@ -312,6 +312,11 @@ class Facts:
         self.crates = {}
         self.children = {}
         files = sorted(f for f in os.listdir(factdir) if f.endswith(".jsonl"))
+        if crates is not None:
+            absent = [c for c in crates if c + ".jsonl" not in files]
+            if absent:
+                raise RuntimeError("no facts for %s on this tree (the crate failed to build; see the fact "
+                                   "generation log)" % absent)
         for f in files:
             cname = f[: -len(".jsonl")]
             if crates is not None and cname not in crates:
